@@ -14,20 +14,16 @@
        fault_of (run_script fixed fuel l) = None
      C08_all_released : ... -> all_dropped g = true -> heap_empty h = true
 
-   where [wf_client] is the discipline checker of LifeSpec.v, which never looks at the heap.
-   What is proved is this statement with two restrictions, and the theorems are named _partial:
-     (1) the history is event-free: key and mouse dispatch with re-entrant handlers is part of
-         the executable model and of the correspondence check (and of the _refuted witnesses
-         below), but the invariant has not been carried through the dispatch loops;
-     (2) the client's side of the contract is [client_okb]: every call is made on windows that
-         are allocated in the model's current heap (attached to the root where the library
-         would abort() in a detached tree), instead of the heap-independent [wf_client].  The
-         implication wf_client l = true -> client_okb l = true is checked on every generated
-         case by the oracle, not proved.
-   Everything else is at full strength: any number of windows, any depth, any order of
-   ref/unref/close, any number of pending restack requests, any fuel. *)
+   where [wf_client] is the discipline checker of LifeSpec.v, which never looks at the heap
+   (ghost state: references the client holds + parent each window is attached to).
+   What is proved is this statement for EVENT-FREE histories, hence the names _partial:
+   key and mouse dispatch with re-entrant handlers is part of the executable model, of the
+   correspondence check and of the _refuted witnesses below, but the invariant has not been carried
+   through the dispatch loops.  Everything else is at full strength: any number of windows, any
+   depth, any order of ref/unref/close, any number of pending restack requests, any fuel (running
+   out of fuel is never a normal-looking value; that enough fuel exists is not proved). *)
 From Coq Require Import ZArith List Bool PArith.
-From Tickit Require Import LifeDefs LifeLemmas LifeInv LifeClose LifeQueue LifeDestroy LifeSpec LifeProofs LifeWitness.
+From Tickit Require Import LifeDefs LifeLemmas LifeInv LifeClose LifeQueue LifeDestroy LifeFate LifeSpec LifeProofs LifeAgree LifeWitness.
 Import ListNotations.
 Local Open Scope Z_scope.
 
@@ -47,12 +43,32 @@ Theorem C08_step_partial : forall fuel o h,
 Proof. exact run_op_ok. Qed.
 Print Assumptions C08_step_partial.
 
-(* for every event-free history, of any length, whose calls are made on allocated windows, the
+(* for every event-free history, of any length, that the heap-independent discipline accepts, the
    model never faults, whatever the fuel *)
 Theorem C08_no_fault_partial : forall fuel l,
+  forallb event_free_op l = true -> wf_client l = true -> fault_of (run_script fixed fuel l) = None.
+Proof. exact wf_no_fault. Qed.
+Print Assumptions C08_no_fault_partial.
+
+(* the same with the client's side stated on the model's own heap (every call is made on allocated
+   windows): the form that does not depend on the discipline checker *)
+Theorem C08_no_fault_allocated_partial : forall fuel l,
   client_okb fuel l (heap0 fixed) = true -> fault_of (run_script fixed fuel l) = None.
 Proof. exact no_fault_b. Qed.
-Print Assumptions C08_no_fault_partial.
+Print Assumptions C08_no_fault_allocated_partial.
+
+(* the discipline is sound for the model: along a history it accepts, its ghost state (references
+   held, parents) agrees with the heap, and each accepted call meets its precondition *)
+Theorem C08_discipline_sound : forall g h o g',
+  hinv [] h -> agree g h -> event_free_op o = true -> gstep g o = Some g' ->
+  op_pre h o /\ (forall h', eff o h h' -> agree g' h').
+Proof. exact step_agree. Qed.
+Print Assumptions C08_discipline_sound.
+
+(* what destroy frees, exactly: the fate of every window is determined by the fate of its parent *)
+Theorem C08_destroy_fate : forall f, unref_fate f /\ destroy_fate f /\ loop_fate f.
+Proof. exact life_fate. Qed.
+Print Assumptions C08_destroy_fate.
 
 (* unref / destroy / the loop over the children, for windows being destroyed [D] at any nesting depth *)
 Theorem C08_unref_destroy : forall f, unref_ok f /\ destroy_ok f /\ loop_ok f.
@@ -63,18 +79,24 @@ Print Assumptions C08_unref_destroy.
 Theorem C08_purge_complete : forall D fuel w h,
   hinv D h -> findw h w <> None ->
   hoare (fun h1 => h1 = h) (purge fixed fuel w)
-        (fun _ h' => hinv D h' /\ wins h' = wins h /\ unqueued h' w /\
+        (fun _ h' => hinv D h' /\ (wins h' = wins h /\ nextw h' = nextw h) /\ unqueued h' w /\
                      (forall q cq, findq h' q = Some cq -> exists cq0, findq h q = Some cq0 /\ q_win cq = q_win cq0)).
 Proof. exact purge_spec. Qed.
 Print Assumptions C08_purge_complete.
 
-(* nothing stays allocated without a reference: when no window holds a reference any more, no
-   window cell and no request cell is left *)
-Theorem C08_all_released_partial : forall fuel l h,
-  client_okb fuel l (heap0 fixed) = true -> run_script fixed fuel l = VOk h ->
-  (forall a c, findw h a = Some c -> w_ref c < 1) -> heap_empty h = true.
-Proof. exact script_all_released_b. Qed.
+(* once the discipline says that every reference has been dropped, nothing is allocated: no window
+   cell and no request cell *)
+Theorem C08_all_released_partial : forall fuel l gf h,
+  forallb event_free_op l = true -> gcheck g0 l = Some gf -> all_dropped gf = true ->
+  run_script fixed fuel l = VOk h -> heap_empty h = true.
+Proof. exact wf_all_released. Qed.
 Print Assumptions C08_all_released_partial.
+
+(* under the invariant nothing stays allocated without a reference *)
+Theorem C08_no_unreferenced_cell : forall h,
+  hinv [] h -> (forall a c, findw h a = Some c -> w_ref c < 1) -> heap_empty h = true.
+Proof. exact all_released. Qed.
+Print Assumptions C08_no_unreferenced_cell.
 
 (* get_cell_text / get_span (repaired): for every cell content and every buffer, every write lands
    inside the buffer of exactly [len] bytes *)
